@@ -200,11 +200,11 @@ func (h264dp *h264Depacketizer) writeFrame(rtpTimestamp uint32, frame *codec.Fra
 	nalType := frame.Payload[0] & 0x1f
 	switch nalType {
 	case h264.NalSps:
-		if len(h264dp.meta.Sps) == 0 {
+		if len(h264dp.meta.Sps) == 0 || !h264dp.metaReady {
 			h264dp.meta.Sps = frame.Payload
 		}
 	case h264.NalPps:
-		if len(h264dp.meta.Pps) == 0 {
+		if len(h264dp.meta.Pps) == 0 || !h264dp.metaReady {
 			h264dp.meta.Pps = frame.Payload
 		}
 	case h264.NalFillerData: // ?ignore...
